@@ -1350,8 +1350,20 @@ asn1c_lang_C_type_SIMPLE_TYPE(arg_t *arg) {
 		OUT("\n");
 		DEBUG("expr constraint checking code for %s", p);
 		if(asn1c_emit_constraint_checking_code(arg) == 1) {
-			OUT("return td->encoding_constraints.general_constraints"
-				"(td, sptr, ctfailcb, app_key);\n");
+			/*
+			 * td is this very type and its checker is this
+			 * function: defer to the underlying type's checker,
+			 * the one an unconstrained type's descriptor names.
+			 */
+			asn1p_expr_t *base = expr;
+			if(expr->expr_type == A1TC_REFERENCE) {
+				base = asn1f_find_terminal_type_ex(arg->asn,
+					arg->ns, expr);
+				if(!base) base = expr;
+			}
+			OUT("return %s_constraint"
+				"(td, sptr, ctfailcb, app_key);\n",
+				asn1c_type_name(arg, base, TNF_SAFE));
 		}
 		INDENT(-1);
 		OUT("}\n");
